@@ -22,6 +22,10 @@ ENGINES = {
 }
 
 PROPS = {
+    'C14': dict(engine='e7', n=dict(quick=480, thorough=6000), shards=12, components=[11, 12, 13], search_mult=3, search_s=60,
+                manifest=dict(level_text='TODO', level_note='TODO',
+                              technique='machine-checked proof in Coq over hand-written model + model/implementation correspondence check',
+                              design_ref='DESIGN.md section 8, E7 (C14)')),
     'C15': dict(engine='e7', n=dict(quick=3000, thorough=60000), shards=4,
                 manifest=dict(
                     level_text='Coq theorems (coq/Props/C15.v) over an executable model of KafkaProducer.Process/Produce, ErrorProducer.Process and '
